@@ -46,6 +46,7 @@ def declare(node, sig):
     sig("aws_gen_new", c_long, c_long, c_int, c_int, c_long, c_long, c_char_p)
     sig("aws_gen_script", c_int, c_long, POINTER(c_int), c_int)
     sig("aws_gen_declare_form_of", c_int, c_long, c_long)
+    sig("aws_gen_declare_length", c_int, c_long, c_long)
     sig("aws_gen_script_at", c_int, c_long, POINTER(c_int), c_int)
     sig("aws_gen_calls", c_long, c_long)
     sig("aws_virtual", c_long, c_long, c_long, c_char_p)
@@ -237,6 +238,10 @@ class Mixin:
     def gen_new(self, truth, declare_form, declare_length, wrong=0, longer=0, key="g"):
         return self._h(self.lib.aws_gen_new(truth, 1 if declare_form else 0, 1 if declare_length else 0, wrong, longer,
                                             key.encode()))
+
+    def gen_declare_length(self, g, length):
+        if not self.lib.aws_gen_declare_length(g, length):
+            self.raise_last()
 
     def gen_declare_form_of(self, g, content):
         if not self.lib.aws_gen_declare_form_of(g, content):
